@@ -113,7 +113,7 @@ theorem small_live {s s' : SendRel} {seq avail now seq' avail' : Nat} {ps : List
     ∃ sq msgs, Packet.smallReliable sq s.ch msgs ∈ ps ∧ (id, m) ∈ msgs :=
   SendRel.small_live h hf hdue hav
 
-/-- Slice, exact form.  The code admits a slice when at least `SLICE_SIZE` bytes of budget remain at its turn — after
+/-- Slice, exact form.  The code accepts a slice when at least `SLICE_SIZE` bytes of budget remain at its turn — after
     the entries `pre` and, inside this message's loop `for i in 0..n`, after the loop indices `a` that precede `i0`;
     the slice handled at loop index `i0` is `(next_slice_to_send + i0) % n`. -/
 theorem slice_live_at_turn {s s' : SendRel} {seq avail now seq' avail' : Nat} {ps : List Packet}
